@@ -823,7 +823,13 @@ class StatsWorld(BaseWorld):
                 want = {"fraction_lost": ref.fraction(), "packets_lost": ref.lost(),
                         "highest_sequence": ref.ext_max & 0xFFFFFFFF, "jitter": (ref.jq4 >> 4)}
                 got = {"fraction_lost": frac, "packets_lost": lost, "highest_sequence": highest, "jitter": jitter}
-                self.log.add("rr", ssrc, tuple(sorted(got.items())))
+                if self.cfg.get("normalise"):
+                    # C17 differential runs: sequence fields relative to the stream's origin
+                    seq0 = next(s["seq0"] for s in self.cfg["streams"] if s["ssrc"] == ssrc)
+                    rel = ((highest - ref.base) & 0xFFFFFFFF) + ((ref.base - seq0) & 0xFFFF)
+                    self.log.add("rr", ssrc, tuple(sorted(dict(got, highest_sequence=rel).items())))
+                else:
+                    self.log.add("rr", ssrc, tuple(sorted(got.items())))
                 bad = [k for k in want if want[k] != got[k]]
                 if ref.ext_max > 0xFFFF:
                     self.probes["rr_after_sequence_wrap"] += 1
